@@ -13,9 +13,9 @@ CONTENT_TYPE_LATEST = 'application/openmetrics-text; version=1.0.0; charset=utf-
 def _is_valid_exemplar_metric(metric, sample):
     if metric.type == 'counter' and sample.name.endswith('_total'):
         return True
-    if metric.type in ('gaugehistogram') and sample.name.endswith('_bucket'):
+    if metric.type == 'gaugehistogram' and sample.name.endswith('_bucket'):
         return True
-    if metric.type in ('histogram') and (sample.name.endswith('_bucket') or sample.name == metric.name):
+    if metric.type == 'histogram' and (sample.name.endswith('_bucket') or sample.name == metric.name):
         return True
     return False
 
